@@ -15,6 +15,7 @@ from . import refgraph
 def run(ctx):
     refgraph.rule_dependency_tables(ctx, "C05.dependency_tables")
     refgraph.rule_iter(ctx, "C05.cascade_visits_all")
+    refgraph.rule_identity_membership(ctx, "C05.identity_membership")
     prod = refgraph.rule_refkeys(ctx, "C05.refkey_declared")
     # a rename is written wherever the line is mentioned only if every mention
     # is the line object itself, i.e. every placeholder was re-pointed
